@@ -47,7 +47,7 @@ New == /\ l <= Len(Trace) /\ Ev.op = "New"
        /\ alloc' = {}
        /\ l' = l + 1
 
-Call == /\ l <= Len(Trace) /\ Ev.op # "New"
+Call == /\ l <= Len(Trace) /\ Ev.op \notin {"New", "Grow", "Window"}
         /\ ~Has(Ev, "crash")
         /\ LET a2 == BA!After(alloc, BA!CallOf(Ev), Ev)
            IN /\ BA!StepOK(alloc, a2, cnt, Ev)          \* the reply is allowed by the contract
@@ -59,7 +59,20 @@ Call == /\ l <= Len(Trace) /\ Ev.op # "New"
               /\ alloc' = a2
         /\ cnt' = cnt /\ l' = l + 1
 
-Next == New \/ Call
+\* Scenarios around the UNDERLYING buffer, recorded as one summary line each:
+\*  Grow     blocks were arranged/freed through one Blocks object before AND after its buffer was grown; a second
+\*           allocator opened on the grown bytes must see exactly the blocks handed out and not freed (want) and
+\*           Available = Count - |those|: the allocation state lives in the bytes, not in the object;
+\*  Window   a memory-mapped file was opened once through a window SHORTER than the file and closed again; the
+\*           file keeps its length and an allocator opened on the whole file afterwards still sees every block.
+Scenario == /\ l <= Len(Trace) /\ Ev.op \in {"Grow", "Window"}
+            /\ ~Has(Ev, "crash")
+            /\ ToSet(Ev.got) = ToSet(Ev.want)
+            /\ Ev.avail = Ev.count - Cardinality(ToSet(Ev.want))
+            /\ Ev.op = "Window" => Ev.filelen = Ev.wantlen
+            /\ UNCHANGED <<alloc, cnt>> /\ l' = l + 1
+
+Next == New \/ Call \/ Scenario
 Spec == Init /\ [][Next]_<<alloc, cnt, l>>
 Accepted == AcceptByDiameter
 =============================================================================
